@@ -528,12 +528,46 @@ def _single_def_rv(j, l):
     return found
 
 
+def _partially_written(j, l):
+    """is a field of local l assigned on its own somewhere in the raw body, or is l mutably borrowed"""
+    for bl in j['blocks']:
+        for st in bl['stmts']:
+            if st['k'] == 'assign' and st['place']['local'] == l and st['place']['proj']:
+                return True
+            if st['k'] == 'assign' and st['rv']['k'] == 'ref' and st['rv'].get('mut') and st['rv']['place']['local'] == l:
+                return True
+        t = bl['term']
+        if t['k'] == 'call' and t['dest']['local'] == l and t['dest']['proj']:
+            return True
+    return False
+
+
 def _trace_operand(j, op, want, depth=0):
     """follow an operand back through plain moves / copies / borrows of whole locals to the local whose single definition
     satisfies want(rv); returns (local, rv) or None"""
     for _ in range(12):
-        if op.get('k') not in ('copy', 'move') or op['place']['proj']:
+        if op.get('k') not in ('copy', 'move'):
             return None
+        if op['place']['proj']:
+            # a field of a value the body built itself (`Comparison::Order(f)` matched a few lines on): the operand stored there
+            pr = op['place']['proj']
+            variant = None
+            if len(pr) == 2 and 'downcast' in pr[0] and 'field' in pr[1]:
+                variant, fi = pr[0]['downcast'], pr[1]['field']
+            elif len(pr) == 1 and 'field' in pr[0]:
+                fi = pr[0]['field']
+            else:
+                return None
+            if depth > 4 or _partially_written(j, op['place']['local']):
+                return None
+            agg = _trace_operand(j, {'k': 'copy', 'place': {'local': op['place']['local'], 'proj': []}},
+                                 lambda rv: rv['k'] == 'aggregate' and not rv.get('closure'), depth + 1)
+            if agg is None or _partially_written(j, agg[0]) or (variant is not None and agg[1].get('variant') != variant) or (variant is None and agg[1].get('variant') not in (None, '')):
+                return None
+            if not isinstance(fi, int) or fi >= len(agg[1].get('ops') or []):
+                return None
+            op = agg[1]['ops'][fi]
+            continue
         l = op['place']['local']
         rv = _single_def_rv(j, l)
         if rv is None:
@@ -563,20 +597,29 @@ def inline_direct_closure_calls(fns_by_path, max_rewrites=40):
             bl = j['blocks'][bi]
             t = bl['term']
             bi += 1
-            if t['k'] != 'call' or len(t['args']) != 2:
+            if t['k'] != 'call':
                 continue
             name = t['callee'].get('path') or ''
-            if name not in ('core::ops::function::FnOnce::call_once', 'core::ops::function::FnMut::call_mut', 'core::ops::function::Fn::call'):
-                continue
-            clo = _trace_operand(j, t['args'][0], lambda rv: rv['k'] == 'aggregate' and rv.get('closure'))
-            tup = _trace_operand(j, t['args'][1], lambda rv: rv['k'] == 'aggregate' and rv.get('agg') == 'Tuple')
-            if clo is None or tup is None:
-                continue
+            if name == '<fn pointer>' and t['callee'].get('indirect'):
+                # a non-capturing closure coerced to a function pointer (`let f: fn(..) = |a, b| ..;` handed to a helper that was
+                # spliced in): the call runs the closure's body on the arguments
+                cast = _trace_operand(j, t['callee']['indirect'], lambda rv: rv['k'] == 'cast' and 'ClosureFnPointer' in str(rv.get('ck')))
+                clo = _trace_operand(j, cast[1]['op'], lambda rv: rv['k'] == 'aggregate' and rv.get('closure')) if cast is not None else None
+                if clo is None:
+                    continue
+                ops = t['args']
+            else:
+                if len(t['args']) != 2 or name not in ('core::ops::function::FnOnce::call_once', 'core::ops::function::FnMut::call_mut', 'core::ops::function::Fn::call'):
+                    continue
+                clo = _trace_operand(j, t['args'][0], lambda rv: rv['k'] == 'aggregate' and rv.get('closure'))
+                tup = _trace_operand(j, t['args'][1], lambda rv: rv['k'] == 'aggregate' and rv.get('agg') == 'Tuple')
+                if clo is None or tup is None:
+                    continue
+                ops = tup[1]['ops']
             cp = clo[1]['closure']
             if cp not in fns_by_path or cp == path or cp in bl.get('inl', ()):
                 continue
             cj = originals.setdefault(cp, copy.deepcopy(fns_by_path[cp]))
-            ops = tup[1]['ops']
             if cj['arg_count'] != len(ops) + 1 or len(cj['blocks']) > 200:
                 continue
             loff, boff, poff = len(j['locals']), len(j['blocks']), len(j.get('promoted') or [])
@@ -1520,6 +1563,16 @@ class AbsInt:
                         res = a0[3][0]          # Some(x).unwrap_or(d) is x
                     elif a0[0] == 'agg' and a0[1] == 'core::option::Option' and a0[2] == 'None' and name.endswith('::unwrap_or') and len(argvals) > 1:
                         res = argvals[1]        # None.unwrap_or(d) is d
+                if res is None and name.endswith(('Result::<T, E>::map', 'Option::<T>::map')) and len(argvals) == 2 and argvals[1][0] == 'fn':
+                    # `known.map(Object::bool)`: a plain function applied to the payload of a value whose variant is known
+                    a0 = argvals[0]
+                    if a0[0] == 'agg' and a0[1] in ('core::result::Result', 'core::option::Option'):
+                        if a0[2] in ('Ok', 'Some') and a0[3]:
+                            inner = ('call', argvals[1][1], (a0[3][0],), b)
+                            path.calls.append((b, argvals[1][1], (a0[3][0],), dkey, dict(t, callee={'path': argvals[1][1], 'resolved': argvals[1][1], 'via': name}, args=[t['args'][0]])))
+                            res = ('agg', a0[1], a0[2], (inner,))
+                        elif a0[2] in ('Err', 'None'):
+                            res = a0
                 if res is None and name.endswith('Try>::branch') and argvals and argvals[0][0] == 'agg' and \
                         argvals[0][1] in ('core::result::Result', 'core::option::Option') and argvals[0][2] in ('Ok', 'Err', 'Some', 'None'):
                     a0 = argvals[0]
